@@ -182,7 +182,10 @@ def rule_patch(repo, tier):
                 bad.setdefault('a path (%s%s) patches torch internals over `%s` and leaves without passing a finally clause that restores '
                                'the same collection' % ('exit=' + ex, ', exception raised' if raised else '', k[:60]), f.node)
     res.inst({'function': f.fq, 'paths': len(pths), 'exception_paths': n_exc}, f.fq)
-    if n_exc == 0:
+    if not tries:
+        bad.setdefault('retain_ltype patches torch internals without any try/finally: an exception raised in the wrapped code (at the yield) '
+                       'leaves them patched', f.node)
+    elif n_exc == 0:
         raise AnalysisError('C06.PATCH: no exception path was explored in retain_ltype')
     for msg, node in bad.items():
         res.add(Finding('C06.PATCH', f, msg, node=node if node is not f.node else None, construct=msg[:100] if node is f.node else ''))
